@@ -306,7 +306,7 @@ fn monitors(out: &mut Out, h: &History, op: &Op, ok: bool, before: &Snap, after:
     }
 }
 
-fn run_history(out: &mut Out, rng: &mut Rng, h: &History) {
+pub fn run_history(out: &mut Out, rng: &mut Rng, h: &History) {
     let mut rp = json!({"kind": "pair_history", "amp": h.amp, "decimals": [h.dp.0, h.dp.1], "fees_protocol_swap_burn": [h.fees.0.to_string(), h.fees.1.to_string(), h.fees.2.to_string()],
                         "asset_kinds_cw20": h.kinds, "ops": []});
     let mut w = match deploy_pair(h.kinds, [h.dp.0, h.dp.1], pool_fee(h.fees.0, h.fees.1, h.fees.2), PairType::StableSwap { amp: h.amp }) { Ok(w) => w, Err(_) => { out.count("pool:instantiate_rejected"); return; } };
@@ -329,10 +329,26 @@ fn run_history(out: &mut Out, rng: &mut Rng, h: &History) {
                  else { gen_op(rng, &before, h.dp) };
         k += 1;
         rp["ops"].as_array_mut().unwrap().push(op.json());
+        // C14: the Simulation query issued in the same state right before the swap
+        let quote = if let Op::Swap { i, x, .. } = &op { Some(w.simulate(*i, *x)) } else { None };
         let r = exec(&mut w, &op);
         let after = snap(&w);
         out.count(&format!("pool:{}:{}", op.kind(), match &r { Ok(_) => "ok", Err(e) => if fail_class(e).is_none() { "panic" } else { "rejected" } }));
         monitors(out, h, &op, r.is_ok(), &before, &after, &rp);
+        if let (Some(q), Ok(_), Op::Swap { u, i, .. }) = (&quote, &r, &op) {
+            out.monitor_evals += 1;
+            let j = 1 - *i;
+            let got = after.user[*u][j] - before.user[*u][j];
+            match q {
+                Ok(sim) => {
+                    if sim.return_amount.u128() != got || sim.protocol_fee_amount.u128() != after.fee[j] - before.fee[j] || sim.burn_fee_amount.u128() != after.burn[j] - before.burn[j] {
+                        out.monitor_fail("C14", &format!("stableswap pair: simulation (return {}, protocol fee {}, burn fee {}) differs from the executed swap (received {}, ledger +{}, burned +{})",
+                            sim.return_amount, sim.protocol_fee_amount, sim.burn_fee_amount, got, after.fee[j] - before.fee[j], after.burn[j] - before.burn[j]), rp.clone());
+                    }
+                }
+                Err(_) => out.monitor_fail("C14", "stableswap pair: simulation failed but the swap executed", rp.clone()),
+            }
+        }
         // deposit-then-withdraw never returns more VALUE than was deposited; value measured by the exact normalised invariant:
         // the invariant per LP token of everybody else after the withdrawal is not below what it was before the deposit
         if let (Ok(_), Op::Withdraw { u, amount }) = (&r, &op) {
@@ -374,7 +390,7 @@ fn run_history(out: &mut Out, rng: &mut Rng, h: &History) {
     out.case("c03_pool", &input, &obsv, rp);
 }
 
-fn histories(out: &mut Out, rng: &mut Rng, n: u64) {
+pub fn histories(out: &mut Out, rng: &mut Rng, n: u64) {
     // corpus: the unequal-decimals LP mint witness (1000 whole tokens each; bob deposits 1000 tokens of the 18-decimal asset only, then withdraws)
     let corpus = vec![
         History { amp: 100, dp: (6, 18), fees: (0, 0, 0), kinds: [false, false], len: 0, fixed: Some(vec![
